@@ -69,7 +69,7 @@ def compare(case, io, mo):
     query in which findall/3 collected an instance that contains an unbound variable of the caller (lib/findall_diag.py)"""
     if _api(case):
         return API.compare(case, io, mo)
-    if not (isinstance(io, dict) and 'queries' in io and isinstance(mo, list) and not (mo and mo[0] == 'front-rejects')):
+    if not (isinstance(io, dict) and 'queries' in io and isinstance(mo, list) and not (mo and mo[0] in ('front-rejects', 'too-large'))):
         return semcheck.compare(case, io, mo)
     idx = semcheck.compared_queries(case, io)
     for k, qi in enumerate(idx):
